@@ -2,12 +2,14 @@
 """Confirm every /tmp/wt-out/Cxx/{A,B} and copy the confirmed ones to /verif/seeded/Cxx-A/ ..."""
 import json, os, shutil, subprocess, sys
 out = {}
-for pid in sorted(os.listdir('/tmp/wt-out')):
+SRC = sys.argv[1] if len(sys.argv) > 1 and not sys.argv[1].startswith('--') else '/tmp/wt-out'
+REN = {'A': 'C', 'B': 'D'} if SRC.endswith('2') else {}
+for pid in sorted(os.listdir(SRC)):
     for x in ('A', 'B', 'C', 'D'):
-        sd = '/tmp/wt-out/%s/%s' % (pid, x)
+        sd = '%s/%s/%s' % (SRC, pid, x)
         if not os.path.exists(sd + '/patch.diff'):
             continue
-        dst = '/verif/seeded/%s-%s' % (pid, x)
+        dst = '/verif/seeded/%s-%s' % (pid, REN.get(x, x))
         if os.path.exists(dst + '/meta.json') and '--force' not in sys.argv:
             continue
         r = subprocess.run(['/verif/tools/seedtest.py', 'confirm', sd], capture_output=True, text=True)
